@@ -176,6 +176,16 @@ func (ms *ModSet) checkHistory(stdout string) (string, string) {
 func invalidVariant(ms *ModSet, r *prng.R) (*simdisk.Tree, string) {
 	t := ms.Tree.Clone()
 	kind := r.Intn(7)
+	if ms.Structs && r.Chance(0.3) {
+		// private fields of a Kombination stay private when only a function returning it is imported, and when
+		// another Kombination of the same name (where the field is public) is in scope
+		if r.Bool() {
+			t.Files[ms.Root] = []byte("Binde \"aus\" ein.\nBinde mache_a aus \"k_a\" ein.\nDie Zahl verboten ist geheim von (ein Punkt wie a ihn macht).\n")
+			return t, "private field of a Kombination whose type name was not imported (selective import of a function returning it)"
+		}
+		t.Files[ms.Root] = []byte("Binde \"aus\" ein.\nBinde \"k_a\" ein.\nBinde mache_b aus \"k_b\" ein.\nDie Zahl verboten ist verborgen von (ein Punkt wie b ihn macht).\n")
+		return t, "private field of a Kombination while a same-named Kombination of another module with that field public is in scope"
+	}
 	if kind >= 5 {
 		// a selective import that lists a name the imported module does not declare itself but only imports
 		// (re-export), or a private name of it: the root is replaced by a minimal importer
